@@ -158,6 +158,8 @@ class Env:
         self.deferred = None      # std::function member of AsyncLoop that (re)launches the loop closure
         self.alias_pol = {}       # call expression -> False when it returns the *negation* of the value whose tokens it carries
         self.fids = set()         # declarations that denote the user functor (constructor parameter + helper parameters)
+        self.epoch_fields = set() # plain members compared in a wait predicate (sequence numbers / epochs)
+        self.need_bump = set()    # ... that start() has to change because the predicate does not look at shouldBeRunning itself
         self.enab = {}            # condition variable -> (field, value) stores that can turn a predicate waited for on it true
         self.pred_conseq = {}
         self.stop_waits = []      # condition-variable waits of stop() that establish insideLoopBody == false
@@ -490,6 +492,14 @@ def pred_tree(E, e):
     ft = E.flag_test(e)
     if ft is not None:
         return ('ld', ft[0]) if ft[1] else ('not', ('ld', ft[0]))
+    if k == 'BinaryOperator' and e.get('opcode') in ('==', '!=', '<', '>', '<=', '>='):
+        # a comparison that involves a plain (mutex-guarded) member of the shared state, e.g. `wakeEpoch != parkedAt`: an opaque
+        # atom of the predicate; any write to that member may change it
+        for x in tu.kids(e):
+            fl = sy.field(x)
+            if fl is not None and fl[0] == DATA and fl not in FLAGS and not (sy.field_type(x) or '').startswith('std::atomic') \
+                    and sy.masked_load(tu.strip(x, casts=True)) is None:
+                return ('ld', ('$cmp', fl))
     if k == 'BinaryOperator' and e.get('opcode') in ('==', '!='):
         # (snapshot & MASK) != 0 / == 0, written out
         pol, atom = sy.cond_atom(e)
@@ -562,6 +572,10 @@ def predicate_enabling(E, pred_expr):
                 if ev_tree(t, env2):
                     en.add((f, v))
     E.pred_conseq[id(pred_expr)] = conseq
+    # opaque comparison atoms: every write to the compared member counts as able to turn the predicate true
+    opaque = {f_[1] for f_ in fs if f_[0] == '$cmp'}
+    E.epoch_fields |= opaque
+    en = {p_ for p_ in en if p_[0][0] != '$cmp'} | {(fl, v) for fl in opaque for v in (True, False)}
     return en, implied
 
 
@@ -865,9 +879,16 @@ def check_loop_closure(E, f, lam, op):
         E.enab.setdefault(cv, set()).update(en)
         en = implied
         if (RUN, True) not in en:
-            found.viol(R3, CLOSURE, 'predicate-ignores-' + RUN[1], 'shouldBeRunning == true does not imply the wait predicate: '
-                       'start() cannot (always) wake the loop', node, where=where)
-        if (ALIVE, False) not in en:
+            if (RUN, False) in obs and E.epoch_fields:
+                # the decision to sleep was re-made under the mutex (shouldBeRunning seen false while holding it without
+                # interruption), and the thread then waits for a change of a guarded sequence number: start() has to change it
+                E.need_bump |= E.epoch_fields
+            else:
+                found.viol(R3, CLOSURE, 'predicate-ignores-' + RUN[1], 'shouldBeRunning == true does not imply the wait predicate, and '
+                           'shouldBeRunning was not re-tested under %s before blocking: a start() that completes between the loop\'s '
+                           'unlocked test of the flag and the wait is not noticed (the thread sleeps although the flag is set; later '
+                           'start() calls see the flag set and do nothing)' % MTX[1], node, where=where)
+        if (ALIVE, False) not in en and not ((ALIVE, True) in obs and E.epoch_fields):
             found.viol(R3, CLOSURE, 'predicate-ignores-' + ALIVE[1], 'threadShouldBeAlive == false does not imply the wait predicate: '
                        'the destructor cannot (always) wake the loop and join never returns', node, where=where)
     emit(ctx, tu, g, res, found, inst, (R1, R2, R3), tu.fn_loc(op),
@@ -1155,10 +1176,12 @@ def check_start(E):
             return [(runv, setf, toks, tested, needs, did)]
         if ev[0] == 'store':
             _k, fld, val, order, node = ev
+            if fld in E.need_bump:
+                return [(runv, setf, frozenset(set(toks) | {('$bumped',)}), tested, needs, did)]
             if fld == RUN:
                 if val is None:
                     found.und(R3, 'store of a non-constant value to shouldBeRunning in start()', node)
-                return [(None, bool(val), frozenset(), False, False, False)]
+                return [(None, bool(val), frozenset(t for t in toks if t[0] == '$bumped'), False, False, False)]
             if fld == INSIDE:
                 found.viol(R1, FN, 'writes-insideLoopBody', 'start() writes insideLoopBody, which belongs to the loop thread', node)
             return [st]
@@ -1208,6 +1231,10 @@ def check_start(E):
         if not (setf or runv is True):
             found.viol(R3, FN, 'flag-not-set', 'start() can return on a path where shouldBeRunning was neither stored true nor observed '
                        'true: the loop is never resumed', None, at)
+        if E.need_bump and setf and ('$bumped',) not in toks:
+            found.viol(R3, FN, 'start-does-not-advance-' + '-'.join(sorted(x[1] for x in E.need_bump)), 'the parked loop thread waits for '
+                       'a change of %s; start() stores shouldBeRunning = true but does not change it: the thread is not woken'
+                       % ', '.join(sorted(x[1] for x in E.need_bump)), None, at)
         if gone and setf and not tested:
             found.viol(R3, FN, 'start-does-not-test-' + '-'.join(sorted(x[1] for x in gone)), 'the loop thread gives up its thread while '
                        'stopped (after storing %s); start() stores shouldBeRunning = true but returns without examining that flag '
@@ -1341,6 +1368,7 @@ def check_ctor(E, f, closures):
     mparam = f['params'][1]['id'] if len(f.get('params', [])) > 1 else None
     mvars = {mparam} if mparam is not None else set()
     universe = None
+    auto_val = [None]
     if mparam is not None:
         ename = f['params'][1]['ct'].split('::')[-1]
         lrec = [r for r in tu.records.values() if r.get('q') == LOOP]
@@ -1353,6 +1381,8 @@ def check_ctor(E, f, closures):
                     lits = [y.get('value') for y in tu.walk(c) if y.get('kind') in ('IntegerLiteral', 'ConstantExpr') and y.get('value') is not None]
                     v = int(lits[0]) if lits else nxt
                     vals.append(v)
+                    if c.get('name') == 'AUTO':
+                        auto_val[0] = v
                     nxt = v + 1
                 universe = frozenset(vals)
 
@@ -1363,8 +1393,14 @@ def check_ctor(E, f, closures):
         except ValueError:
             return None
 
-    def launch(st, kind):
+    def launch(st, kind, node=None):
         kinds.add(kind)
+        if kind == 'task' and st[1] is not None and auto_val[0] in st[1] and dict(st[2]).get('$pool') == 'small' and \
+                dict(st[2]).get('$autocmp'):
+            found.viol(R4, FN, 'auto-small-pool-launched-as-task', 'the loop is launched as a task on a path where the launch method is '
+                       'still AUTO and numTaskingThreads() was just found *small*: AUTO is resolved to TASK only for a large pool; on a '
+                       'small one the loop has to get (and the destructor has to join) its own thread - as a task it parks inside '
+                       'one of the few workers and nothing is joined on destruction', node)
         return [('twice' if st[0] is not None else kind,) + st[1:]]
 
     # state: (launched, possible values of the launch-method parameter | None, truth of local bools already branched on)
@@ -1395,7 +1431,7 @@ def check_ctor(E, f, closures):
         if k == 'CallExpr' and s.get('q') == SCHEDULE:
             args = tu.kids(n)[1:]
             if args and is_loop(args[0]):
-                return launch(st, 'task')
+                return launch(st, 'task', n)
         if k in ('CXXConstructExpr', 'CXXTemporaryObjectExpr') and s.get('q') == 'std::thread::thread' and tu.kids(n):
             if is_loop(tu.kids(n)[0]):
                 # must be the right-hand side of `threadMember = std::thread(closure)`
@@ -1452,10 +1488,26 @@ def check_ctor(E, f, closures):
             return [st]
         truth = pol if si == 0 else (not pol)
         launched, mv, bv = st
+        if atom.get('kind') == 'BinaryOperator' and atom.get('opcode') in ('<', '>', '<=', '>='):
+            # numTaskingThreads() compared with a constant: which way did the pool-size test go on this path?
+            a0, b0 = tu.kids(atom)
+            for x, y, flip in ((a0, b0, False), (b0, a0, True)):
+                xs = tu.strip(x, casts=True)
+                if xs is not None and xs.get('kind') == 'CallExpr' and tu.sd(xs).get('q', '').endswith('numTaskingThreads') and \
+                        const_int(y) is not None:
+                    greater = atom['opcode'] in ('>', '>=')
+                    if flip:
+                        greater = not greater
+                    large = truth if greater else (not truth)
+                    bv = frozenset({p_ for p_ in bv if p_[0] != '$pool'} | {('$pool', 'large' if large else 'small')})
+                    return [(launched, mv, bv)]
         if atom.get('kind') == 'BinaryOperator' and atom.get('opcode') in ('==', '!=') and mparam is not None and mv is not None:
             a0, b0 = tu.kids(atom)
             for x, y in ((a0, b0), (b0, a0)):
                 if sy.local_var(x) in mvars and const_int(y) is not None:
+                    if dict(bv).get('$pool') == 'small' and auto_val[0] in mv:
+                        # the launch is being decided by comparing the (still possibly AUTO) method after the pool was found small
+                        bv = frozenset(set(bv) | {('$autocmp', True)})
                     eq = truth if atom['opcode'] == '==' else (not truth)
                     mv2 = (mv & {const_int(y)}) if eq else (mv - {const_int(y)})
                     return [(launched, mv2, bv)] if mv2 else []
